@@ -25,7 +25,9 @@ def enc_val(v):
     return v
 
 
-def make_frame(cols, rows=None):
+def make_frame(cols, rows=None, index=None):
+    """rows: positions taken from the full table; index: row labels of the full table (None = RangeIndex).
+    With ``index`` given the chunk keeps the labels of its rows (the way df.iloc[...] does)."""
     import pandas as pd
 
     d = {}
@@ -39,7 +41,10 @@ def make_frame(cols, rows=None):
             d[name] = np.array(vs, dtype=bool)
         elif kind == "ts":
             d[name] = pd.to_datetime(np.array(vs, dtype="int64") * 10 ** 9)
-    return pd.DataFrame(d)
+    df = pd.DataFrame(d)
+    if index is not None:
+        df.index = pd.Index(index if rows is None else [index[i] for i in rows])
+    return df
 
 
 class C14(Scenario):
@@ -60,7 +65,8 @@ class C14(Scenario):
                    "timestamp columns contain no NaT", "all histograms are Count-valued, so documents are compared exactly, after dropping categories / sparse bins whose "
                    "whole subtree holds zero weight (the vectorised filler creates them for every value present in a batch)"]
     expected_faults = ["reorder", "regroup"]
-    expected_probes = ["feature_3d", "time_axis", "explicit_bin_specs", "nan_in_float_column", "bool_axis"]
+    expected_probes = ["feature_3d", "time_axis", "explicit_bin_specs", "nan_in_float_column", "bool_axis", "non_range_index",
+                       "chunk_keeps_row_labels"]
 
     def generate(self, rng, tier, profile):
         big = tier == "thorough"
@@ -111,8 +117,9 @@ class C14(Scenario):
         order = list(range(len(chunks)))
         s.shuffle(order)
         steps = [{"op": "whole"}]
+        chunk_mode = s.pick(["fresh", "iloc", "iloc"])
         for c in order:
-            steps.append({"op": "chunk", "rows": chunks[c]})
+            steps.append({"op": "chunk", "rows": chunks[c], "how": chunk_mode})
         m = len(chunks)
         pend = list(range(m))
         nxt = m
@@ -125,7 +132,8 @@ class C14(Scenario):
             nxt += 1
         steps.append({"op": "final", "obj": pend[0]})
         return {"cols": {k_: [v[0], v[1]] for k_, v in cols.items()}, "features": [":".join(f) for f in feats], "binning": binning,
-                "bin_specs": bin_specs, "time_axis": "t1" if use_time else "", "steps": steps, "records": []}
+                "bin_specs": bin_specs, "time_axis": "t1" if use_time else "", "steps": steps, "records": [],
+                "index_mode": s.pick([None, None, "offset", "shuffled", "strings"])}
 
     # ------------------------------------------------------------------
     def _direct(self, feature, bin_specs, var_dtype, time_axis, df):
@@ -181,8 +189,19 @@ class C14(Scenario):
         from histogrammar.dfinterface.make_histograms import make_histograms
 
         cols = {k: tuple(v) for k, v in case["cols"].items()}
-        df = make_frame(cols)
-        n = len(df)
+        n = len(next(iter(cols.values()))[1])
+        imode = case.get("index_mode")
+        if imode == "offset":
+            labels = [1000 + 3 * i for i in range(n)]
+        elif imode == "shuffled":
+            labels = [(i * 7919 + 13) % max(n, 1) if math.gcd(7919, max(n, 1)) == 1 else n - 1 - i for i in range(n)]
+        elif imode == "strings":
+            labels = ["r%03d" % ((i * 31) % 997) + str(i) for i in range(n)]
+        else:
+            labels = None
+        df = make_frame(cols, None, labels)
+        if labels is not None:
+            w.bump("probe_non_range_index")
         feats = [f for f in case["features"]]
         kw = dict(binning=case["binning"], time_axis=case["time_axis"])
         R["shape"] = observe.obs_hash({"feats": feats, "bs": case["bin_specs"], "kw": kw, "n": n,
@@ -243,7 +262,11 @@ class C14(Scenario):
                 if frozen is None or not st["rows"] or any(i >= n for i in st["rows"]):
                     continue
                 f_r, bs_r, ta_r, vd_r = frozen
-                cdf = make_frame(cols, st["rows"])
+                keep_labels = st.get("how") == "iloc"
+                cdf = make_frame(cols, st["rows"], labels if labels is not None else (list(range(n)) if keep_labels else None)) \
+                    if (keep_labels or labels is not None) else make_frame(cols, st["rows"])
+                if keep_labels:
+                    w.bump("probe_chunk_keeps_row_labels")
                 keep = cdf.copy(deep=True)
                 o = call(make_histograms, cdf, features=list(f_r), bin_specs=copy.deepcopy(bs_r), var_dtype=dict(vd_r), time_axis=ta_r, binning=case["binning"])
                 if not o.ok:
